@@ -623,12 +623,26 @@ class ADEV(Pytree):
                                 tangent_outs = jtu.tree_map(_zero_tangent_like, primal_outs)
                             else:
                                 jvp = jax_autodiff.primitive_jvps.get(eqn.primitive)
-                                if not jvp:
-                                    msg = f"differentiation rule for '{eqn.primitive}' not implemented"
-                                    raise NotImplementedError(msg)
-                                primal_outs, tangent_outs = jvp(
-                                    flat_primals, canonical_tangents, **params
-                                )
+                                if jvp:
+                                    primal_outs, tangent_outs = jvp(
+                                        flat_primals, canonical_tangents, **params
+                                    )
+                                else:
+                                    # No per-primitive rule: custom_jvp / custom_vjp
+                                    # calls (jax.nn.relu, ...) are differentiated by
+                                    # JAX's JVP tracer, so let jax.jvp do it.
+                                    n_sub = len(subfuns)
+                                    primal_outs, tangent_outs = jax.jvp(
+                                        lambda *xs: eqn.primitive.bind(
+                                            *subfuns, *xs, **params
+                                        ),
+                                        tuple(flat_primals[n_sub:]),
+                                        tuple(
+                                            _instantiate_zero_tangents(
+                                                list(flat_tangents[n_sub:])
+                                            )
+                                        ),
+                                    )
                                 tangent_outs = _instantiate_zero_tangents(tangent_outs)
 
                 if not eqn.primitive.multiple_results:
